@@ -361,3 +361,11 @@ package geojson
 //@   props C05 C17
 //@   arith order
 //@   requires g != nil && WriteInv(g)
+
+// ---- NewFeature: the stored member text is never the empty object (F7): AppendJSON writes `,` + members[1:len-1]
+//@ extern sjson.Delete
+//@ func NewFeature
+//@   props C05 C17
+//@   arith order
+//@   ensures Fresh: result != nil && !old($alloc)[result] && ftBase(result) == geometry
+//@   ensures Members: result.extra != nil ==> result.extra.members != "{}"
